@@ -238,6 +238,30 @@ class PA(sp.P):
 
 # ================================================================================================== code generator
 
+def unparse(e):
+    """canonical source text of an operand (for matching the condition holes of the spec)"""
+    k = e.kind
+    if k == "var":
+        return e.name
+    if k == "lit":
+        return str(e.v)
+    if k == "field":
+        return "%s.%s" % (unparse(e.recv), e.name)
+    if k == "index":
+        return "%s[%s]" % (unparse(e.recv), unparse(e.idx))
+    if k == "bin":
+        return "%s %s %s" % (unparse(e.l), e.op, unparse(e.r))
+    if k == "cast":
+        return "(%s as %s)" % (unparse(e.e), e.ty.name)
+    if k == "mcall":
+        return "%s.%s(%s)" % (unparse(e.recv), e.name, ", ".join(unparse(a) for a in e.args))
+    if k == "call":
+        return "%s(%s)" % ("::".join(e.path), ", ".join(unparse(a) for a in e.args))
+    if k == "un":
+        return "%s%s" % (e.op, unparse(e.e))
+    return "<%s>" % k
+
+
 class Var:
     def __init__(self, rust, lean, ty, seq):
         self.rust, self.lean, self.ty, self.seq = rust, lean, ty, seq
@@ -267,7 +291,8 @@ SIGS = {}          # (self type or None, rust name) -> signature of a translated
 
 def sig_of(unit, f):
     return dict(unit=unit["name"], lean=f["lean"], self_kind=f.get("self_kind"), self_ty=f.get("self_ty"),
-                params=[t for _, t in f["params"]], ret=f.get("ret"), abs=[n for n, _ in unit.get("abstract", [])],
+                params=[t for _, t in f["params"]], ret=f.get("ret"),
+                abs=[n for n, _ in unit.get("abstract", [])] + [h[0] for h in unit.get("cond_holes", [])],
                 ghosts=[n for n, _ in f.get("ghosts", [])], place=f.get("place", False))
 
 
@@ -280,7 +305,7 @@ class Fn:
         self.ntmp = 0
         self.nloop = {"for": 0, "loop": 0}
         self.helpers = []
-        self.abs = list(unit.get("abstract", []))
+        self.abs = list(unit.get("abstract", [])) + [(h[0], "Int → Int → Bool") for h in unit.get("cond_holes", [])]
         self.consts = unit.get("consts", {})
         self.loop_ctx = []                                  # stack of (break_text, continue_text)
         self.used_names = set()
@@ -781,6 +806,27 @@ class Fn:
                 blk.nest(sub, 4)
                 blk.add("    pure (decide (%s)))" % r)
             return "(%s = true)" % t
+        if c.kind == "bin" and c.op in ("<", ">", "<=", ">="):
+            ul, ur = unparse(c.l), unparse(c.r)
+            for hname, pa, pb in self.unit.get("cond_holes", []):
+                swapped = None
+                if re.fullmatch(pa, ul) and re.fullmatch(pb, ur):
+                    swapped = False
+                elif re.fullmatch(pa, ur) and re.fullmatch(pb, ul):
+                    swapped = True
+                if swapped is None:
+                    continue
+                lt, rt, ty = self.pair(c.l, c.r, blk)
+                if ty != TInt("i32"):
+                    self.err("condition hole `%s` on values of type %r" % (hname, ty), c)
+                op = {"<=": "≤", ">=": "≥"}.get(c.op, c.op)
+                body = "decide (%s %s %s)" % (("b", op, "a") if swapped else ("a", op, "b"))
+                defs = self.unit.setdefault("_hole_defs", {})
+                if defs.get(hname, body) != body:
+                    self.err("the sites of the condition hole `%s` no longer carry the same test (`%s` and `%s`)" % (hname, defs[hname], body), c)
+                defs[hname] = body
+                a, b = (rt, lt) if swapped else (lt, rt)
+                return "(%s %s %s = true)" % (hname, paren(a), paren(b))
         if c.kind == "bin" and c.op in ("==", "!=", "<", ">", "<=", ">="):
             lt, rt, ty = self.pair(c.l, c.r, blk)
             if not isinstance(ty, (TInt, TBool)):
@@ -1259,6 +1305,7 @@ def translate_unit(src, unit, fail):
     """src: gen_tables.Src of unit['file']; returns (lean text, snippets dict); calls `fail(msg)` on anything outside the subset"""
     rel = unit["file"]
     out_fns, snippets = [], {}
+    unit["_hole_defs"] = {}
     for item in unit.get("pinned_items", []):
         n_found = len(re.findall(tokens_regex(item), src.code))
         if n_found != 1:
@@ -1287,6 +1334,10 @@ def translate_unit(src, unit, fail):
             fail("%s: %s: cannot translate: %s (outside the subset of tools/rs2lean_genalign.py; the equality theorem %s can "
                  "no longer be regenerated)" % (where, what, u.msg, f.get("theorem", "")))
         out_fns.append((f, line, body, helpers, mains))
+    for h in unit.get("cond_holes", []):
+        if h[0] not in unit["_hole_defs"]:
+            fail("%s: the comparison of `%s` with `%s` (condition hole `%s` of the translation spec in tools/rs2lean_genalign.py) "
+                 "was not found; cannot translate" % (rel, h[1], h[2], h[0]))
     name = unit["name"]
     txt = ["import RbV.Basic.RsSemGenalign", "import RbV.Gen.TbCodes", "import RbV.Gen.Limits"] + \
           ["import " + m for m in unit.get("imports", [])] + [
@@ -1317,6 +1368,13 @@ def translate_unit(src, unit, fail):
         for n, t in ALL_STRUCTS[sname]:
             txt.append("  %s : %s" % (n, h.ty_of_text(t).lean()))
         txt.append("deriving DecidableEq, Repr, Inhabited")
+        txt.append("")
+    fn0 = unit["functions"][0]["lean"]
+    for h in unit.get("cond_holes", []):
+        txt.append("/-- condition hole `%s`: the test found in the source between `a` = `%s` and `b` = `%s` (the translated functions take"
+                   % (h[0], h[1].replace("\\", ""), h[2].replace("\\", "")))
+        txt.append("the test as the parameter `%s`; the theorems are stated for every admissible tie-break) -/" % h[0])
+        txt.append("def %s_%s (a b : Int) : Bool := %s" % (fn0, h[0], unit["_hole_defs"][h[0]]))
         txt.append("")
     for f, line, body, helpers, mains in out_fns:
         for h in helpers:
@@ -1436,6 +1494,8 @@ unit(name="SrcPwModes", props="property C01", file=PW, consts=PW_CONSTS, imports
 
 unit(name="SrcPwCustom", props="property C01", file=PW, consts=PW_CONSTS, imports=["RbV.Gen.SrcPwTypes"],
      abstract=[("matchFn", "Nat → Nat → Int")],
+     cond_holes=[("iTie", r"i_score", r"s_score"), ("dTie", r"d_score", r"s_score"),
+                 ("snTie", r"self\.S\[\w+\]\[\w+\] \+ self\.scoring\.yclip_suffix", r"self\.Sn\[\w+\]")],
      abstract_calls={"self.scoring.match_fn.score": dict(lean="matchFn", params=["u8", "u8"], ret="i32")},
      functions=[dict(name="custom", lean="custom",
                      header="pub fn custom(&mut self, x: TextSlice<'_>, y: TextSlice<'_>) -> Alignment",
